@@ -101,6 +101,15 @@ struct Tr<'a> {
     owner: String,
     self_mut: bool,
     uses_es: bool,
+    // functions that move elements of `self.data` through raw pointers: `self` is the model's matrix (with its element
+    // list), a pointer into the buffer is an element index, and the list is threaded through the pointer operations
+    data_mode: bool,
+    has_data: bool,
+}
+
+// the functions of swap.rs translated in data mode
+fn data_fn(owner: &str, name: &str) -> bool {
+    owner == "Matrix" && matches!(name, "swap_rows" | "swap_cols" | "swap_major_axis_vectors" | "swap_minor_axis_vectors")
 }
 
 fn fn_uses_es(f: &FnInfo) -> bool {
@@ -173,6 +182,7 @@ impl<'a> Tr<'a> {
                 let name = m.method.to_string();
                 match self.ty_of(&m.receiver, env) {
                     Ty::Named(s) if s == "NonNull" && (name == "add" || name == "sub") => Ty::Named("NonNull".into()),
+                    Ty::Named(s) if s == "DataPtr" && name == "add" => Ty::Named("DataPtr".into()),
                     Ty::Named(s) if s == "NonNull" && name == "addr" => Ty::Usize,
                     Ty::Named(s) if s == "NonNull" && name == "as_mut" => Ty::Named("RefMut".into()),
                     Ty::Named(s) if s == "Vec" && name == "len" => Ty::Usize,
@@ -253,6 +263,11 @@ impl<'a> Tr<'a> {
     }
     // the value the function finally returns
     fn finish(&self, v: String) -> String {
+        if self.data_mode {
+            let me = if self.has_data { "(set_data self data)" } else { "self" };
+            let r = if v == "(Ok self)" { "(Ok tt)".to_string() } else { v };
+            return format!("Val ({}, {})", me, r);
+        }
         if self.self_mut && v != "self" {
             format!("Val (self, {})", v)
         } else {
@@ -279,6 +294,68 @@ impl<'a> Tr<'a> {
             };
             if has_hook_cfg(attrs) {
                 return self.block(rest, env, k);
+            }
+        }
+        if self.data_mode {
+            // let base = self.data.as_mut_ptr();
+            if let Stmt::Local(l) = s {
+                if let Some(init) = &l.init {
+                    if tstr(&init.expr) == "self.data.as_mut_ptr()" {
+                        let name = tstr(&l.pat);
+                        env.insert(name.clone(), Ty::Named("DataPtr".into()));
+                        self.has_data = true;
+                        return format!("let data := m_data self in\n  let {} := 0 in\n  {}", name, self.block(rest, env, k));
+                    }
+                }
+            }
+            // for i in 0..n { body }  with the element list as the loop state
+            if let Stmt::Expr(Expr::ForLoop(fl), _) = s {
+                let var = tstr(&fl.pat);
+                let Expr::Range(rg) = &*fl.expr else { return "(*UNSUPPORTED loop range*)".into() };
+                let lo = rg.start.as_ref().map(|e| tstr(e)).unwrap_or_default();
+                let Some(hi) = rg.end.as_ref() else { return "(*UNSUPPORTED open loop range*)".into() };
+                if lo != "0" || !matches!(rg.limits, RangeLimits::HalfOpen(_)) || !self.has_data {
+                    return "(*UNSUPPORTED loop form*)".into();
+                }
+                return self.expr(hi, env, &mut |me, n, env| {
+                    let mut e2 = env.clone();
+                    e2.insert(var.clone(), Ty::Usize);
+                    let body = me.block(&fl.body.stmts, &mut e2, &mut |_, _, _| "Val data".to_string());
+                    format!("let* data := for_res (zseq {}) data (fun {} data =>\n    {}) in\n  {}", n, var, body, me.block(rest, env, k))
+                });
+            }
+            // ptr::swap(x, y);  ptr::swap_nonoverlapping(x, y, count);
+            if let Stmt::Expr(Expr::Call(c), _) = s {
+                let f = tstr(&c.func);
+                if f == "ptr::swap" || f == "ptr::swap_nonoverlapping" {
+                    let args: Vec<&Expr> = c.args.iter().collect();
+                    let prim = if f == "ptr::swap" { "ptr_swap" } else { "swap_nonoverlapping_m" };
+                    return self.exprs(&args, env, &mut |me, vs, env| {
+                        format!("let* data := {} data {} in\n  {}", prim, vs.join(" "), me.block(rest, env, k))
+                    });
+                }
+            }
+            // a block (`unsafe { .. }`) in statement position continues with the statements after it
+            if let Stmt::Expr(Expr::Unsafe(u), _) = s {
+                if !rest.is_empty() || true {
+                    let mut all: Vec<Stmt> = u.block.stmts.clone();
+                    all.extend(rest.iter().cloned());
+                    return self.block(&all, env, k);
+                }
+            }
+            // tail `match self.order { .. => self.f(..), .. }`: every arm finishes the function
+            if let (Stmt::Expr(Expr::Match(m), None), true) = (s, rest.is_empty()) {
+                return self.expr(&m.expr, env, &mut |me, sc, env| {
+                    let arms: Vec<String> = m
+                        .arms
+                        .iter()
+                        .map(|a| {
+                            let p = tstr(&a.pat).rsplit("::").next().unwrap().to_string();
+                            format!("| {} => {}", p, me.expr(&a.body, &mut env.clone(), k))
+                        })
+                        .collect();
+                    format!("match {} with {} end", sc, arms.join(" "))
+                });
             }
         }
         match s {
@@ -446,6 +523,10 @@ impl<'a> Tr<'a> {
             Expr::Block(b) => self.block(&b.block.stmts, env, k),
             Expr::Unary(u) if matches!(u.op, UnOp::Deref(_)) => self.expr(&u.expr, env, k),
             Expr::Unary(u) if matches!(u.op, UnOp::Not(_)) => self.expr(&u.expr, env, &mut |me, v, env| k(me, format!("(negb {})", v), env)),
+            Expr::Field(f) if self.data_mode && tstr(&f.base) == "self" => {
+                let m = tstr(&f.member);
+                k(self, format!("(m_{} self)", m), env)
+            }
             Expr::Field(f) if matches!(f.member, Member::Unnamed(_)) => {
                 let m = tstr(&f.member);
                 self.expr(&f.base, env, &mut |me, b, env| k(me, format!("({} {})", if m == "0" { "fst" } else { "snd" }, b), env))
@@ -638,6 +719,8 @@ impl<'a> Tr<'a> {
                     (Ty::Usize, "saturating_mul") => k(me, format!("(saturating_mul md {} {})", vs[0], vs[1]), env),
                     (Ty::Isize, "unsigned_abs") => k(me, format!("(unsigned_abs {})", vs[0]), env),
                     (Ty::Usize, "get") => k(me, vs[0].clone(), env),
+                    // a pointer into self.data is an element index; staying inside the buffer is checked where it is used
+                    (Ty::Named(s), "add") if s == "DataPtr" => k(me, format!("({} + {})", vs[0], vs[1]), env),
                     (Ty::Named(s), "into") if s == "Shape" => k(me, vs[0].clone(), env),
                     (Ty::Named(s), "addr") if s == "NonNull" => k(me, vs[0].clone(), env),
                     (Ty::Named(s), "as_mut") if s == "NonNull" => k(me, vs[0].clone(), env),
@@ -652,6 +735,19 @@ impl<'a> Tr<'a> {
                     (Ty::Named(s), "row") | (Ty::Named(s), "col") if s == "AsIndex" => {
                         let t = me.fresh("a");
                         format!("let* {} := AsIndex_{} {} in\n  {}", t, name, vs[0], k(me, t.clone(), env))
+                    }
+                    (Ty::Named(s), _) if me.data_mode && recv_is_self && data_fn(s, &name) => {
+                        // another data-mode method: it returns the new matrix together with its result; in tail position
+                        let s = s.clone();
+                        let t = me.fresh("r");
+                        let _ = k;
+                        format!("let* {} := G_{}_{} md {} in\n  Val {}", t, s, name, vs.join(" "), t)
+                    }
+                    (Ty::Named(s), _) if me.data_mode && recv_is_self && me.cx.fns.contains_key(&(s.clone(), name.clone())) => {
+                        let s = s.clone();
+                        let mut a = vs.clone();
+                        a[0] = "(mview self)".to_string();
+                        me.call(&s, &name, a, env, k)
                     }
                     (Ty::Named(s), _) if me.cx.fns.contains_key(&(s.clone(), name.clone())) => {
                         let s = s.clone();
@@ -733,6 +829,11 @@ const TARGETS: &[(&str, &str)] = &[
     ("Matrix", "ensure_elementwise_operation_conformable"),
     ("Matrix", "ensure_multiplication_like_operation_conformable"),
     ("Matrix", "reshape"),
+    // swap.rs: raw-pointer moves inside self.data (data mode)
+    ("Matrix", "swap_major_axis_vectors"),
+    ("Matrix", "swap_minor_axis_vectors"),
+    ("Matrix", "swap_rows"),
+    ("Matrix", "swap_cols"),
     // the pointer-level state machines of iter/iter_mut.rs
     ("IterNthVectorMut", "assemble"),
     ("IterNthVectorMut", "next"),
@@ -804,7 +905,8 @@ fn main() {
             ReturnType::Default => Ty::Unit,
             ReturnType::Type(_, t) => conv_ty(t, o),
         };
-        let mut tr = Tr { cx: &mut cx, owner: o.to_string(), self_mut, uses_es: uses_es0 };
+        let dm = data_fn(o, n);
+        let mut tr = Tr { cx: &mut cx, owner: o.to_string(), self_mut, uses_es: uses_es0, data_mode: dm, has_data: false };
         let body = tr.block(&block.stmts, &mut env, &mut |me, v, _| me.finish(v));
         let _ = tr.self_mut;
         let es = if ptr_owner(o) {
@@ -815,6 +917,11 @@ fn main() {
             ""
         };
         let rty = if self_mut && tstr(&sig.output) != "->&mutSelf" { format!("(G{} * {})", o, coq_ty(&ret)) } else { coq_ty(&ret) };
+        if dm {
+            let ps: Vec<String> = params.iter().map(|p| if p.starts_with("(self") { "(self : matrix A)".to_string() } else { p.clone() }).collect();
+            println!("Definition G_{}_{} {{A : Type}} (md : cfg) {} : res (matrix A * result unit) :=\n  {}.\n", o, n, ps.join(" "), body);
+            continue;
+        }
         println!("Definition G_{}_{} (md : cfg){} {} : res {} :=\n  {}.\n", o, n, es, params.join(" "), rty, body);
     }
 }
